@@ -143,6 +143,16 @@ CHECKS = {
          "part (ignored by the fingerprint while listed) and full-extent copies of objects crossing a jump.",
     technique="symbolic execution of real code (CrossHair/z3) vs visit-sequence oracle",
     ref="DESIGN.md §2 C09"),
+ "C20": dict(
+    text="Symbolic execution of (1) the container protocol of Score/Performance (len, index with a symbolic int incl. negative/out of range, "
+         "plain / nested / interleaved / zipped iteration chosen by a symbolic selector) and (2) read-only entry points on a part with symbolic "
+         "positions (note arrays, rest array, the eight maps, pretty, save_score_midi, transpose, unfold_part_maximal, compute_pianoroll; "
+         "save_performance_midi on a performance): a canonical fingerprint of all points, links, objects and attributes is equal before and "
+         "after, and a second call returns an identical result. Path trees exhausted per instance.",
+    note="save_musicxml / save_match (lxml, files) and estimate_spelling/voices/key (numeric kernels) are outside. While KF-C09-segments-cached-on-part "
+         "is listed as known the fingerprint ignores Segment objects (only those).",
+    technique="symbolic execution of real code (CrossHair/z3), fingerprint equality",
+    ref="DESIGN.md §2 C20"),
 }
 NOT_APPLICABLE = {
  "C18": "float32/transcendental codec chain (log2, 2**x, mean/std, symbolic/symbolic division) over ~600 lines of vectorised numpy: non-linear with transcendental terms, z3 answers unknown; no sound bounded encoding within reach (DESIGN.md §2 C18)",
